@@ -1,4 +1,5 @@
 import EaselModel.Shuffle.LemmasTermination
+import EaselModel.Shuffle.LemmasSample
 /-! Progress of the two probabilistically terminating loops, stated on the RAW WORD STREAM.
 
 `esl_rnd_Roll` is `do { u = esl_random_uint32(r) / factor; } while (u >= n);`. `rollOn n ws` is that loop reading its raw
@@ -262,4 +263,157 @@ theorem dpSelectLastOn_eq_rolls (sf : Nat) : ∀ (xs : List Nat) (E : Edges) (ws
         · simp only [DpValidRolls]; rw [if_neg hc]; exact ⟨hlt, h1⟩
         · simp only [dpSelectLastRolls]; rw [if_neg hc]; exact h2
 
+/-! ## the same for `esl_rand64_Roll` (the `esl_vec_*Shuffle64` family) -/
+def rollOn64 (n : Nat) : List Nat → Option (Nat × List Nat)
+  | [] => none
+  | x :: xs =>
+    match rollWord64 n x with
+    | some v => some (v, xs)
+    | none => rollOn64 n xs
+
+def rng64After (r : Rng64) : Nat → Rng64
+  | 0 => r
+  | k+1 => rng64After (r.next).2 k
+
+/-- the first `k` raw 64-bit words generator state `r` delivers -/
+def rng64Words (r : Rng64) : Nat → List Nat
+  | 0 => []
+  | k+1 => (r.next).1.toNat :: rng64Words (r.next).2 k
+
+theorem rng64Words_length (r : Rng64) (k : Nat) : (rng64Words r k).length = k := by
+  induction k generalizing r with
+  | zero => rfl
+  | succ k ih => simp [rng64Words, ih]
+
+theorem rollOn64_length (n : Nat) : ∀ (ws : List Nat) (v : Nat) (rest : List Nat),
+    rollOn64 n ws = some (v, rest) → rest.length < ws.length := by
+  intro ws
+  induction ws with
+  | nil => intro v rest h; simp [rollOn64] at h
+  | cons x xs ih =>
+    intro v rest h
+    simp only [rollOn64] at h
+    split at h
+    · cases h; simp
+    · have := ih v rest h; simp; omega
+
+/-- refinement: the model's 64-bit rejection loop is `rollOn64` on the words the 64-bit generator delivers -/
+theorem Rng64_roll_eq_rollOn64 (n : Nat) : ∀ (fuel : Nat) (r : Rng64),
+    r.roll n fuel = (rollOn64 n (rng64Words r fuel)).map (fun p => (p.1, rng64After r (fuel - p.2.length))) := by
+  intro fuel
+  induction fuel with
+  | zero => intro r; simp [Rng64.roll, rng64Words, rollOn64]
+  | succ fuel ih =>
+    intro r
+    simp only [Rng64.roll, rng64Words, rollOn64]
+    cases hw : rollWord64 n (r.next).1.toNat with
+    | some v =>
+      simp only [Option.map_some, rng64Words_length]
+      rw [show fuel + 1 - fuel = 1 by omega]
+      rfl
+    | none =>
+      simp only
+      rw [ih (r.next).2]
+      cases hr : rollOn64 n (rng64Words (r.next).2 fuel) with
+      | none => rfl
+      | some p =>
+        obtain ⟨v, rest⟩ := p
+        have hl := rollOn64_length n _ v rest hr
+        rw [rng64Words_length] at hl
+        simp only [Option.map_some]
+        rw [show fuel + 1 - rest.length = (fuel - rest.length) + 1 by omega]
+        rfl
+
+theorem rollOn64_none_iff (n : Nat) : ∀ ws : List Nat, rollOn64 n ws = none ↔ ∀ y ∈ ws, rollWord64 n y = none := by
+  intro ws
+  induction ws with
+  | nil => simp [rollOn64]
+  | cons x xs ih =>
+    simp only [rollOn64]
+    cases hx : rollWord64 n x with
+    | some v => simp [hx]
+    | none => simp [hx, ih]
+
+theorem rollOn64_append_rejected (n : Nat) : ∀ (ws tail : List Nat), (∀ y ∈ ws, rollWord64 n y = none) →
+    rollOn64 n (ws ++ tail) = rollOn64 n tail := by
+  intro ws
+  induction ws with
+  | nil => intro tail _; rfl
+  | cons x xs ih =>
+    intro tail h
+    simp only [List.cons_append, rollOn64]
+    rw [h x (by simp)]
+    exact ih tail (fun y hy => h y (by simp [hy]))
+
+/-- partial correctness + progress for `esl_rand64_Roll`: a returned value is `< n`; after any finite run of rejected words
+    every next word below `n·f` (at least half of all 64-bit words) makes the loop return -/
+theorem rollOn64_progress (n : Nat) (hn : 0 < n) (hn' : n < 2^64) (ws : List Nat) (h : rollOn64 n ws = none)
+    (w : Nat) (hw : w < n * ((2^64-1)/n)) : ∃ v, rollOn64 n (ws ++ [w]) = some (v, []) ∧ v < n := by
+  rw [rollOn64_append_rejected n ws [w] ((rollOn64_none_iff n ws).1 h)]
+  cases hx : rollWord64 n w with
+  | some v => exact ⟨v, by simp [rollOn64, hx], rollWord64_lt' _ _ _ hx⟩
+  | none => have := (rollWord64_none_iff n w hn hn').1 hx; omega
+
+theorem rollOn64_lt (n : Nat) : ∀ (ws : List Nat) (v : Nat) (rest : List Nat), rollOn64 n ws = some (v, rest) → v < n := by
+  intro ws
+  induction ws with
+  | nil => intro v rest h; simp [rollOn64] at h
+  | cons x xs ih =>
+    intro v rest h
+    simp only [rollOn64] at h
+    split at h
+    · rename_i v' hv; cases h; exact rollWord64_lt' _ _ _ hv
+    · exact ih v rest h
+
+
+/-! ## from every generator state, a state that differs in ONE table word lets `esl_rnd_Roll` return at once
+(the test hook `poke` of the harness realises exactly this state; `temper(0) = 0`, and the word `0` is accepted for every `n`) -/
+
+theorem fillA_size' {α : Type} [Inhabited α] (g : α → α → α → α) (N : Nat) (i1 iM : Nat → Nat) (a : Array α) :
+    (EaselModel.MTP.fillA g N i1 iM a).size = a.size := by
+  unfold EaselModel.MTP.fillA
+  generalize List.range N = l
+  induction l generalizing a with
+  | nil => rfl
+  | cons z l ih => simp only [List.foldl_cons]; rw [ih, EaselModel.MTP.size_stepA]
+
+theorem temper32_zero : temper32 0 = 0 := by decide
+
+theorem rollWord_zero (n : Nat) (hn : 0 < n) : rollWord n 0 = some 0 := by
+  unfold rollWord
+  simp [hn]
+
+/-- the state `pokeRaw` works on: table refilled if exhausted -/
+theorem poke_ready (r : Rng) (hk : r.kind = .mersenne) (hs : r.st.mt.size = 624) :
+    let r1 := if r.st.mti ≥ 624 then (r.next).2 else r
+    r1.kind = .mersenne ∧ r1.st.mt.size = 624 ∧ r1.st.mti < 624 := by
+  intro r1
+  by_cases h : r.st.mti ≥ 624
+  · have e : r1 = (r.next).2 := by simp [r1, h]
+    rw [e]
+    simp only [Rng.next, hk, EaselModel.MTP.next]
+    have hN : P32.N = 624 := rfl
+    simp only [hN, h, ↓reduceIte]
+    refine ⟨trivial, ?_, by omega⟩
+    simp only [EaselModel.MTP.refill]
+    rw [fillA_size', hs]
+  · have e : r1 = r := by simp [r1, h]
+    rw [e]
+    exact ⟨hk, hs, by omega⟩
+
+theorem roll_returns_after_poke (r : Rng) (hk : r.kind = .mersenne) (hs : r.st.mt.size = 624) (n fuel : Nat) (hn : 0 < n) :
+    ∃ r', (r.pokeRaw 0).roll n (fuel+1) = some (0, r') := by
+  obtain ⟨h1, h2, h3⟩ := poke_ready r hk hs
+  simp only [Rng.pokeRaw, hk]
+  generalize (if r.st.mti ≥ 624 then (r.next).2 else r) = r1 at h1 h2 h3
+  simp only [Rng.roll, Rng.next, h1, EaselModel.MTP.next]
+  have hN : P32.N = 624 := rfl
+  have hlt : ¬ (r1.st.mti ≥ P32.N) := by rw [hN]; omega
+  simp only [hlt, ↓reduceIte]
+  have hv : (r1.st.mt.setIfInBounds r1.st.mti (0 : UInt32)).getD r1.st.mti default = 0 := by
+    rw [Array.getD_eq_getD_getElem?, Array.getElem?_setIfInBounds]
+    simp [h2, h3]
+  have ht : P32.temper = temper32 := rfl
+  rw [ht, hv, temper32_zero]
+  simp [rollWord_zero n hn]
 end EaselModel.Shuffle
